@@ -206,6 +206,9 @@ F5f == {Prog("F5f", <<pre, S(Call("cle", <<>>))>>) : pre \in {Set("X", 5), Set("
        \cup {Prog("F5f", <<Set("X", k), S(Call("cle", <<>>)), S(Asg("=", Var("b"), Var("c"))), Set("a", k), S(Call("cgt", <<Var("a")>>))>>) : k \in {2, 3, 4, 200}}
 \* F5g: parameters of different types next to each other (each parameter keeps its own width and signedness)
 F5g == {Prog("F5g", <<S(Call("ps", <<x, y>>))>>) : x \in {Var("sa"), Num(200), Var("a")}, y \in {Var("a"), Num(200), Var("sa"), Var("X")}}
+       \* the signedness of a function's result (arithmetic shift, sign extension through a signed char variable)
+       \cup {Prog("F5g", <<S(Asg("=", d, Bin(">>", Call("sf", <<x>>), Num(n))))>>) : d \in {Var("c"), Var("sb")}, x \in {Var("sa"), Num(200), Var("a")}, n \in {1, 2}}
+       \cup {Prog("F5g", <<S(Asg("=", Var("sb"), Call("sf", <<x>>))), S(Asg("=", Var("ss"), Var("sb")))>>) : x \in {Var("sa"), Num(200)}}
 \* F6: calls of functions whose bodies contain loops, early returns, switches, locals and further calls
 \* (compared variant against variant by C14; these functions have no CSem body)
 C6 == {Call("lp", <<x>>) : x \in {Var("b"), Num(3), Var("X")}} \cup {Call("er", <<x>>) : x \in {Var("a"), Num(128), Idx("arr", Var("X"))}}
